@@ -26,6 +26,7 @@ Treeinfo files provide details about installable trees in Fedora composes and me
 
 import os
 import hashlib
+import string
 import re
 
 import six
@@ -952,6 +953,8 @@ class Checksums(productmd.common.MetadataBase):
             for path, value in parser.items(self._section):
                 path = self._fix_path(path)
                 if ":" not in value:
+                    if not all(c in string.hexdigits for c in value):
+                        raise ValueError("Unknown checksum format for '%s': %s" % (path, value))
                     if len(value) == 32:
                         checksum_type, checksum = "md5", value
                     elif len(value) == 40:
